@@ -85,6 +85,16 @@ List comprehensions.  `[E for v in xs if c]` is the loop `lc = []; for v in xs: 
 is local to the comprehension; a walrus `[y := E for …]` assigns the enclosing function's variable `y` (PEP 572) and
 appends its new value.  `x = []` gets its element type from the first `append`.
 
+More constructs.  `bool(e)` is the condition `e`.  A value-context `a and b` / `a or b` over non-bool operands returns
+one of the operands; it is translated to its truthiness only, with the type `Truthy`, which no construct but a
+condition accepts (a parameter may be declared `Truthy` too: "only `bool(arg)` is read").  `getattr(x, "f", d)` is `x.f`
+for an object of a configured class that declares `f`, and `d` for `None` (NoneType has no such attribute).  A local
+assigned `None` on one path and a `T` on another is an `Option T` (types are settled in a first pass).  `P[k] = v` on a
+configured dict of a caller's object (`dict_outputs`) is recorded in a list of writes; with `implicit_return` a bare
+`return` / falling off the end returns the configured view of the final state.  `calls=` maps a method call to another
+translated function (`depends=`: that function must itself translate).  `fragment=(a, b)` translates the consecutive
+top-level statements from the first one containing `a` up to, not including, the first later one containing `b`.
+
 `isinstance(x, list)` is decided statically: `x : List _` is a Python `list` → True; an int, bool, str, `None`, or a
 record object is not → False.  An `if` (or `if not`) on such a test is translated as its live branch only — the other
 branch is dead for every input of the declared type and need not be typeable.  A union-typed input (`rtf_column_header`:
@@ -200,6 +210,61 @@ TARGETS = [
         records={}, params=[("rel_widths", "List Rat"), ("col_width", "Rat")], skip_params=[], env={},
         alias={}, outputs={}, returns={}, ret_type="List Rat",
     ),
+    dict(
+        name="FootnoteSourceBorders", file="pagination/processor.py", cls="PageFeatureProcessor",
+        func="_apply_footnote_source_borders",
+        doc="PageFeatureProcessor._apply_footnote_source_borders: which table-rendered component (source before\n"
+            "footnote) receives the border that closes the table on this page.  `has_footnote` / `has_source` are\n"
+            "whatever the caller computed with `and` (None, a str, a list, a bool): only their truthiness is read\n"
+            "(type Truthy).  The effect, `page.component_borders[key] = border_style`, is returned as the list of\n"
+            "writes in order.",
+        records={"Foot": [("as_table", "Bool")]},
+        classes=[("rtflite.input", c, {"as_table": "<class 'bool'>"}) for c in ("RTFFootnote", "RTFSource")],
+        params=[("has_footnote", "Truthy"), ("has_source", "Truthy"), ("border_style", "Str"),
+                ("rtf_footnote", "Option Foot"), ("rtf_source", "Option Foot")],
+        skip_params=["self", "document", "page"],
+        env={"document.rtf_footnote": ("rtf_footnote", "Option Foot"),
+             "document.rtf_source": ("rtf_source", "Option Foot")},
+        dict_outputs={"page.component_borders": ("component_borders", "Option Str", "Str")},
+        implicit_return="s.out_component_borders", ret_type="List (Option Str × Str)",
+        alias={}, outputs={}, returns={},
+    ),
+    dict(
+        name="BorderDecision", file="pagination/processor.py", cls="PageFeatureProcessor",
+        func="_apply_pagination_borders",
+        # a FRAGMENT of the function: the statements that decide which style closes the table on this page and whether
+        # a table-rendered footnote / source takes it (the rest of the function edits attribute matrices: deepcopy,
+        # hasattr, BroadcastValue — outside the subset)
+        fragment=("self._should_show_element(document.rtf_page.page_footnote", "self._apply_footnote_source_borders("),
+        raises=True,
+        doc="PageFeatureProcessor._apply_pagination_borders, from the statement that asks whether the footnote is shown\n"
+            "on this page (`has_footnote_on_page = …`) up to, not including, the statement that applies the closing\n"
+            "style (`if border_style: …`): is a footnote / source shown on this\n"
+            "page as a table row, and which border style closes the page's table (`None`: none).  The fragment reads no\n"
+            "local assigned before it; its result is the record of its locals (see the side file for their names).\n"
+            "`self._should_show_element` is the translated `Generated.Py.ShouldShow.run`.",
+        records={"Foot": [("text", "Option (List Str)"), ("as_table", "Bool")]},
+        classes=[("rtflite.input", c, {"text": "collections.abc.Sequence[str] | None", "as_table": "<class 'bool'>"})
+                 for c in ("RTFFootnote", "RTFSource")] +
+                [("rtflite.input", "RTFBody", {"border_last": "list[list[str]]"}),
+                 ("rtflite.input", "RTFPage", {"border_last": "str | None", "page_footnote": "<class 'str'>",
+                                               "page_source": "<class 'str'>"})],
+        params=[("is_first_page", "Bool"), ("is_last_page", "Bool"), ("rtf_footnote", "Option Foot"),
+                ("rtf_source", "Option Foot"), ("page_footnote", "Str"), ("page_source", "Str"),
+                ("body_border_last", "List (List Str)"), ("page_border_last", "Option Str")],
+        skip_params=["self", "document", "page"],
+        env={"page.is_first_page": ("is_first_page", "Bool"), "page.is_last_page": ("is_last_page", "Bool"),
+             "document.rtf_footnote": ("rtf_footnote", "Option Foot"),
+             "document.rtf_source": ("rtf_source", "Option Foot"),
+             "document.rtf_page.page_footnote": ("page_footnote", "Str"),
+             "document.rtf_page.page_source": ("page_source", "Str"),
+             "document.rtf_body.border_last": ("body_border_last", "List (List Str)"),
+             "document.rtf_page.border_last": ("page_border_last", "Option Str")},
+        calls={"self._should_show_element": ("Generated.Py.ShouldShow.run",
+                                             ["Str", ("page", ["is_first_page", "is_last_page"])], "Bool")},
+        imports=["Generated.PyShouldShow"], depends=["ShouldShow"],
+        implicit_return="s", ret_type="St", alias={}, outputs={}, returns={},
+    ),
     _additional_rows("AdditionalRowsFlat", "List (Option Comp)", "a flat list `[header | None, …]`"),
     _additional_rows("AdditionalRowsNested", "List (List (Option Comp))",
                      "a nested list `[[header | None, …], …]` (one Python list per section)"),
@@ -212,7 +277,7 @@ def lean_str(s: str) -> str:
     return "[" + ", ".join(str(ord(c)) for c in s) + "]"
 
 
-DEFAULT = {"Int": "0", "Bool": "false", "Str": "[]", "List Int": "[]", "Char": "0", "Rat": "0"}
+DEFAULT = {"Int": "0", "Bool": "false", "Str": "[]", "List Int": "[]", "Char": "0", "Rat": "0", "Truthy": "false"}
 
 
 class Fn:
@@ -238,7 +303,7 @@ class Fn:
         for out, ty in cfg["outputs"].items():
             self.vars["out_" + out] = f"List {ty}"
         for _path, (out, kt, vt) in (cfg.get("dict_outputs") or {}).items():
-            self.vars["out_" + out] = f"List ({lean_type(kt)} × {lean_type(vt)})"
+            self.vars["out_" + out] = f"List ({kt} × {vt})"
         self.vars.update(seed_vars or {})
 
     # ---- expressions: returns (lean, type)
@@ -879,6 +944,10 @@ class Fn:
                 raise Untranslatable("statements after return")
             src = ast.unparse(self.unalias(st.value)) if st.value is not None else "None"
             pure = "pure " if self.M else ""
+            if src == "None" and self.cfg.get("implicit_return"):
+                # a function whose result is its effect: `return` / `return None` / falling off the end hand back the
+                # configured view of the final state
+                return f"{ind}{pure}{self.cfg['implicit_return']}", defined, "return"
             if src in self.cfg["returns"]:
                 return f"{ind}{pure}{self.cfg['returns'][src]}", defined, "return"
             v, ty = self.expr(st.value if st.value is not None else ast.Constant(value=None), defined)
@@ -991,29 +1060,63 @@ def t_app(ctor: str, arg: str) -> str:
     return f"{ctor} {arg}" if " " not in arg else f"{ctor} ({arg})"
 
 
-def t_arg(t: str, ctor: str):
-    """the argument of the type application `ctor X` (None when `t` is not one)"""
-    if not t.startswith(ctor + " "):
-        return None
-    inner = t[len(ctor) + 1:].strip()
-    if inner.startswith("("):
+def _top_split(t: str, sep: str) -> list[str]:
+    """split at the occurrences of `sep` that are not inside parentheses"""
+    out, depth, cur, k = [], 0, "", 0
+    while k < len(t):
+        if t[k] == "(":
+            depth += 1
+        elif t[k] == ")":
+            depth -= 1
+        if depth == 0 and t.startswith(sep, k):
+            out.append(cur)
+            cur = ""
+            k += len(sep)
+            continue
+        cur += t[k]
+        k += 1
+    return out + [cur]
+
+
+def _strip_parens(t: str) -> str:
+    t = t.strip()
+    while t.startswith("("):
         depth = 0
-        for i, ch in enumerate(inner):
+        for k, ch in enumerate(t):
             depth += ch == "("
             depth -= ch == ")"
             if depth == 0:
                 break
-        if i == len(inner) - 1:
-            inner = inner[1:-1].strip()
-    return inner
+        if k != len(t) - 1:
+            break
+        t = t[1:-1].strip()
+    return t
+
+
+def t_arg(t: str, ctor: str):
+    """the argument of the type application `ctor X` (None when `t` is not one): `X` is an atom or parenthesised"""
+    if not t.startswith(ctor + " ") or len(_top_split(t, " × ")) != 1:
+        return None
+    inner = t[len(ctor) + 1:].strip()
+    if len(_top_split(inner, " ")) != 1:
+        return None
+    return _strip_parens(inner)
 
 
 def lean_type(t: str) -> str:
+    t = _strip_parens(t)
+    parts = _top_split(t, " × ")
+    if len(parts) > 1:
+        return " × ".join(t_paren(lean_type(x)) if " × " in _strip_parens(x) else _lt_arg(x) for x in parts)
     for ctor in ("List", "Option"):
         a = t_arg(t, ctor)
         if a is not None:
             return t_app(ctor, lean_type(a))
     return {"Str": "List Nat", "Char": "Nat", "Truthy": "Bool", "None": "Option Unit"}.get(t, t)
+
+
+def _lt_arg(x: str) -> str:
+    return lean_type(x)
 
 
 def find_function(cfg) -> ast.FunctionDef:
@@ -1073,33 +1176,29 @@ def translate(cfg) -> str:
     stmts = list(node.body)
     shown = node
     if cfg.get("fragment"):
-        # consecutive top-level statements of the function, from the first one whose source starts with the first
-        # marker to the first one after it whose source starts with the second marker
-        first, last = cfg["fragment"]
+        # consecutive top-level statements of the function: from the first one whose source CONTAINS the first marker
+        # up to, not including, the first later one that contains the second marker.  The markers name methods /
+        # input paths (configuration), never locals, so renaming a local does not move the fragment.
+        first, stop = cfg["fragment"]
         srcs = [ast.unparse(x) for x in stmts]
-        i = next((k for k, t in enumerate(srcs) if t.startswith(first)), None)
-        j = next((k for k, t in enumerate(srcs) if i is not None and k >= i and t.startswith(last)), None)
+        i = next((k for k, t in enumerate(srcs) if first in t), None)
+        j = next((k for k, t in enumerate(srcs) if i is not None and k > i and stop in t), None)
         if i is None or j is None:
-            raise Untranslatable(f"fragment markers {first!r} … {last!r} not found")
-        stmts = stmts[i:j + 1]
+            raise Untranslatable(f"fragment markers {first!r} … {stop!r} not found")
+        stmts = stmts[i:j]
         shown = ast.Module(body=stmts, type_ignores=[])
+    if cfg.get("implicit_return") and not (stmts and isinstance(stmts[-1], ast.Return)):
+        stmts = stmts + [ast.Return(value=None)]           # falling off the end
     fn = Fn(cfg, node)
     fn.block(list(stmts), set(), False, "  ")
     seed = {k: v for k, v in fn.vars.items() if not k.startswith("out_")}
     fn = Fn(cfg, node, seed_vars=seed)            # second pass with the variable types of the first
-    body, _, kind = fn.block(list(stmts), set(), False, "    " if cfg.get("implicit_return") else "  ")
+    body, _, kind = fn.block(list(stmts), set(), False, "  ")
     if {k: v for k, v in fn.vars.items() if not k.startswith("out_")} != seed:
         raise Untranslatable("the types of the local variables do not settle")
     if kind != "return":
-        if not cfg.get("implicit_return"):
-            raise Untranslatable("a path reaches the end of the function without a return")
-        # the function (fragment) ends by falling off its end: its result is the configured view of the final state
-        arrow = "←" if fn.M else ":="
-        final = ("pure " if fn.M else "") + cfg["implicit_return"]
-        body = f"  let s {arrow}{fn.DO or ''}\n{body}\n  {final}"
-    elif cfg.get("implicit_return"):
-        body = textwrap.indent(textwrap.dedent(body), "  ")
-    lines = [f"import Generated.PyPrelude",
+        raise Untranslatable("a path reaches the end of the function without a return")
+    lines = [f"import Generated.PyPrelude"] + [f"import {m}" for m in cfg.get("imports", [])] + [
              "/-! GENERATED by harness/pytranslate.py from",
              f"`/repo/src/rtflite/{cfg['file']}` — `{cfg['cls']}.{cfg['func']}`.  Do not edit.",
              "",
@@ -1188,6 +1287,9 @@ def generate(out_dir: Path = OUT) -> dict:
     for cfg in TARGETS:
         path = out_dir / f"Py{cfg['name']}.lean"
         try:
+            for dep in cfg.get("depends", []):
+                if not status.get(dep, {}).get("ok"):
+                    raise Untranslatable(f"the function it calls ({dep}) is outside the translated subset")
             text = translate(cfg)
             status[cfg["name"]] = dict(ok=True, func=f"{cfg['cls']}.{cfg['func']}", file=cfg["file"])
         except Untranslatable as e:
